@@ -97,7 +97,9 @@ class Contract:
         segment=None,
         specfns=None,
         pure_calls=(),
+        opaque_calls=False,
     ):
+        self.opaque_calls = opaque_calls
         self.file, self.qualname = file, qualname
         self.props = tuple(props)
         self.params = params or {}
